@@ -488,11 +488,11 @@ operator_lookup: util.immutabledict[
         ),
         "is_": (
             _boolean_compare,
-            util.immutabledict({"negate_op": operators.is_}),
+            util.immutabledict({"negate_op": operators.is_not}),
         ),
         "is_not": (
             _boolean_compare,
-            util.immutabledict({"negate_op": operators.is_not}),
+            util.immutabledict({"negate_op": operators.is_}),
         ),
         "between_op": (
             _between_impl,
